@@ -69,6 +69,13 @@ def check(acc, name, infos, ops, named, meta, sample=False):
             acc.violation(gsig(m["sig"]), m["witness"], inp)
     if not d.fallback:
         acc.count("structured_answers")
+        # an unmarked answer claims to be ExplorerScript: the compiler has to take it (what it means is C02's business)
+        try:
+            norm.compile_exps(d.text)
+            acc.count("structured_answers_accepted_by_the_compiler")
+        except Exception as e:
+            acc.violation(gsig("unmarked-text-rejected", type(e).__name__, str(e)[:45]), {"error": str(e)[:300]}, dict(inp, text=d.text))
+            return
         if "is-ssb-script" in d.text.split("\n", 3)[0] or d.text.lstrip().startswith("//?:"):
             acc.violation("marker-malformed", {"head": d.text[:80]}, inp)
         if sample:
